@@ -339,6 +339,10 @@ def run(ctx):
         else:
             b = mutate(rng, bytes.fromhex(rng.choice(harvested))) if harvested and rng.random() < 0.7 else bytes(rng.randrange(256) for _ in range(rng.randint(0, 100)))
             raws.append({"id": "r%d" % i, "bytes": b.hex(), "stream": False})
+    # a peer that joins properly and then never reads the reply (a full socket buffer in real life)
+    raws.append({"id": "noread-join", "bytes": "", "stream": True, "noread": True})
+    raws.append({"id": "noread-join-junk", "bytes": bytes(rng.randrange(256) for _ in range(40)).hex(), "stream": True, "noread": True})
+
     def run_raws(rs):
         """a crash of the whole process is bisected down to the datagram that causes it"""
         o, lg = run_harness(binary, {"mode": "hostile", "raw": rs}, wd, tag="hostile", timeout=600)
@@ -354,7 +358,7 @@ def run(ctx):
     for r, o in zip(raws, routs):
         bad = None
         if o["panic"]: bad = "handler panicked: " + o["panic"]
-        elif o["timeout"]: bad = "handler did not return within 15 s"
+        elif o["timeout"]: bad = "handler did not return within 15 s" + (" (the peer sent a valid join and never read the reply: the stream deadline must bound the write too)" if r.get("noread") else "")
         elif not o["own_same"]: bad = "own published state changed by a received %s" % ("stream" if r["stream"] else "datagram")
         if not o["err"]: nacc += 1
         if bad:
